@@ -124,3 +124,14 @@ func VerifSeedSystemBytes(c Connection, v uint32) bool {
 
 	return true
 }
+
+// VerifDrawSystemBytes draws the next System Bytes value exactly as a send would (it consumes it).
+func VerifDrawSystemBytes(c Connection) (uint32, bool) {
+	cc, ok := c.(*connection)
+	if !ok {
+		return 0, false
+	}
+	b := cc.sysGen.next()
+
+	return uint32(b[0])<<24 | uint32(b[1])<<16 | uint32(b[2])<<8 | uint32(b[3]), true
+}
